@@ -21,7 +21,7 @@ def local_callees(f, body):
         t = blk["term"]
         if t["k"] == "call":
             c = callee_of(t)
-            if c:
+            if c and c.get("resolved_kind") != "Virtual":
                 p = c.get("resolved") or c["path"]
                 if p in f.bodies:
                     out.append(p)
